@@ -13,6 +13,7 @@ CONSTANTS
   CapSet = {2}
   RetSet = {0, 3}
   CompactSet = {TRUE}
+  AgeSet = {0}
   Keys = {"a"}
 VIEW GenView
 CHECK_DEADLOCK FALSE
